@@ -14,21 +14,30 @@ PROP = dict(
         "MM.C20.reserved_not_forward",
         "MM.C20.C20_dispatch_iff",
         "MM.C20.C20_end_to_end",
+        "MM.C20.C20_ingress_roundtrip",
+        "MM.C20.C20_ingress_long_key",
     ],
     spec=True,
     rule="cases = a forward.Handler configured with 0..40 endpoints (keys from a pool with case/whitespace/NUL/prefix variants, empty key, "
          "duplicates, random bytes, 255..65537-byte keys) whose targets are 6 real loopback listeners and 2 dead addresses, connection limit "
          "in {unlimited,-1,1,2,3,1000}, started or not; ops: HandleStreamOpen with configured keys and near-misses, HandleStreamClose, Start, "
          "and STREAM_OPEN frames through Agent.handleStreamOpen (exact and near-miss `forward:` prefixes, other address types, path "
-         "none/self/other/two hops); the listener that accepted the connection (matched by source port to the ACK) is the observed dial "
+         "none/self/other/two hops), and the INGRESS side: a second real agent (agent.New, not started) with a learned route runs "
+         "Agent.DialForward(key) and the STREAM_OPEN it emits is handed byte for byte to the exit agent (keys incl. 246..255 bytes, around the "
+         "one-byte address length); the listener that accepted the connection (matched by source port to the ACK) is the observed dial "
          "target; any unattributed accepted connection is reported as stray; non-trivial = open/agent ops",
-    nontrivial=lambda op, out: op.startswith(("open", "agent")),
+    nontrivial=lambda op, out: op.startswith(("open", "agent", "ingress")),
     trusted_base=[
         "MM/Model/C20.lean models the decision part of HandleStreamOpen (running, limit, map lookup) and the address dispatch of "
         "Agent.handleStreamOpen; the dial itself (net.Dialer) is observed, not modelled",
         "prefix, reserved names, address type and error codes regenerated from the compiled packages (MM/Gen/C20.lean)",
     ],
     assumptions=[
+        "forward handles TCP only (internal/forward has no UDP path); forward.Listener passes its configured key verbatim to "
+        "ForwardDialer.DialForward (read; the T-diff enters at Agent.DialForward)",
+        "observation: DialForward writes the address length as byte(len) without a bound, so a listener key of 248..255 bytes is truncated on "
+        "the wire and can never connect (C20_ingress_long_key: it is never taken for a forward request); keys longer than 255 bytes cannot "
+        "be routed (route advertisements carry a one-byte key length)",
         "absence of a dial is observed as: no listener accepted a connection up to the end of the case (targets are loopback listeners)",
     ],
     manifest=dict(
